@@ -81,6 +81,38 @@ def skeleton(t):
     return ["t", t[1], t[2], trees.sort_attrs(t[3]), [skeleton(k) for k in t[4] if k[0] != "x"]]
 
 
+def all_nodes(root):
+    from delb import altered_default_filters
+
+    with altered_default_filters():
+        return [root] + list(root.iterate_descendants())
+
+
+def handle_problems(doc, handles):
+    """node objects fetched before the reduction: one that is still in the tree is found there by identity with its
+    content; one that was removed (text that became empty, text merged into its neighbour) has no parent, no siblings
+    and is not in the document any more"""
+    from delb import TextNode
+
+    now = {id(n): n for n in all_nodes(doc.root)}
+    problems = []
+    for n in handles:
+        if id(n) in now:
+            continue
+        if not isinstance(n, TextNode):
+            problems.append(f"a {type(n).__name__} fetched before the reduction is not in the tree any more")
+            continue
+        try:
+            attached = n.parent is not None or n in doc or n.fetch_following_sibling() is not None or n.fetch_preceding_sibling() is not None
+        except AssertionError:
+            # a text node that was merged into its predecessor is left in a state in which its relations cannot be
+            # asked for (observation recorded in DESIGN.md section 4); the property is about text that becomes empty
+            continue
+        if attached:
+            problems.append(f"a removed text node ({n.content!r}) still has a parent / siblings / is in the document")
+    return problems
+
+
 # ------------------------------------------------------------------ implementation runs
 def impl_variants(case):
     """Returns {variant: reduced plain tree or exception text} and the tree before reduction."""
@@ -95,7 +127,9 @@ def impl_variants(case):
             xml = case["xml"]
             d = Document(xml)
             before = trees.extract(d.root)
+            handles = all_nodes(d.root)
             d.reduce_whitespace()
+            out["handles"] = handle_problems(d, handles)
             out["reduce_whitespace"] = trees.extract(d.root)
             d.reduce_whitespace()
             out["twice"] = trees.extract(d.root)
@@ -106,7 +140,9 @@ def impl_variants(case):
             held = list(root.iterate_descendants())  # keep chained text nodes alive
             before = trees.extract(root)
             d = Document(root)
+            handles = all_nodes(d.root)
             d.reduce_whitespace()
+            out["handles"] = handle_problems(d, handles)
             out["reduce_whitespace"] = trees.extract(d.root)
             d.reduce_whitespace()
             out["twice"] = trees.extract(d.root)
@@ -159,6 +195,8 @@ def judge(run: Run, stream, case, before, variants, model):
     run.case(stream, case, nontrivial)
     run.count("how", case["how"])
     run.count("size", min(trees.size(before), 30) // 5 * 5)
+    for pr in variants.pop("handles", []):
+        run.violation(stream, case, {"why": pr, "before": before})
     for name, got in variants.items():
         if isinstance(got, str):
             if not known:
